@@ -103,3 +103,42 @@ example : expandMacros cxx (Str.ofString "${C_DIR}/lib") = Str.ofString "${C_DIR
 example : 36 ∉ cxx.name ∧ (upper cxx.name).head? ≠ some 80 := by decide
 
 end EupsModel.PathAct
+
+namespace EupsModel.PathAct
+open EupsModel EupsModel.PathAlg
+
+/-- a run of actions changes no variable that none of them targets -/
+theorem run_other_var (acts : List (Bool × Act)) (s s' : St) (k : Str)
+    (h : run acts s = .ok s') (hk : ∀ a ∈ acts, k ≠ a.2.target) :
+    s'.env.get k = s.env.get k := by
+  induction acts generalizing s with
+  | nil => simp [run] at h; subst h; rfl
+  | cons a rest ih =>
+    obtain ⟨fwd, act⟩ := a
+    simp only [run] at h
+    cases he : exec fwd act s with
+    | runtimeError => rw [he] at h; cases h
+    | ok s1 =>
+      rw [he] at h
+      have h1 := exec_other_var fwd act s s1 k he (hk (fwd, act) (by simp))
+      have h2 := ih s1 h (fun a ha => hk a (by simp [ha]))
+      rw [h2, h1]
+
+/-- a run without addAlias lines leaves the aliases alone -/
+theorem run_aliases_untouched (acts : List (Bool × Act)) (s s' : St)
+    (h : run acts s = .ok s') (hal : ∀ a ∈ acts, ∀ key ws, a.2 ≠ .alias key ws) :
+    s'.aliases = s.aliases := by
+  induction acts generalizing s with
+  | nil => simp [run] at h; subst h; rfl
+  | cons a rest ih =>
+    obtain ⟨fwd, act⟩ := a
+    simp only [run] at h
+    cases he : exec fwd act s with
+    | runtimeError => rw [he] at h; cases h
+    | ok s1 =>
+      rw [he] at h
+      have h1 := (exec_aliases_untouched fwd act s s1 he (hal (fwd, act) (by simp))).1
+      have h2 := ih s1 h (fun a ha => hal a (by simp [ha]))
+      rw [h2, h1]
+
+end EupsModel.PathAct
